@@ -63,13 +63,24 @@ func podName(seed int64, i int) string {
 	return fmt.Sprintf("pod-%d-%d-%s", seed, i, strings.Repeat("k", 16))
 }
 
+// baseMID: normally a fixed instant in the past.  With VERIF_LATE_NOW=<ms> (set by the cache scenarios for all their
+// children) the documents of corpus `seed` are `seed*97` minutes older than that instant - "late" documents, 10 min .. 24 h
+// before the fraction is created, so that the fraction's Info carries a time distribution, a different one per corpus.
+func baseMID(seed int64) uint64 {
+	if v := os.Getenv("VERIF_LATE_NOW"); v != "" {
+		now, _ := strconv.ParseUint(v, 10, 64)
+		return now - uint64(seed)*97*60_000
+	}
+	return 1_700_000_000_000 + uint64(seed)*1000
+}
+
 func corpus(seed int64, n int) []doc {
 	r := vh.NewRNG(seed*104729 + int64(n))
 	docs := make([]doc, n)
 	for i := range docs {
 		g := i % nGroups
 		docs[i] = doc{
-			id:     seq.ID{MID: seq.MID(1_700_000_000_000 + uint64(seed)*1000 + uint64(i/3)), RID: seq.RID(r.U64()>>1 | 1)},
+			id:     seq.ID{MID: seq.MID(baseMID(seed) + uint64(i/3)), RID: seq.RID(r.U64()>>1 | 1)},
 			body:   []byte(fmt.Sprintf(`{"service":"svc%ds%d","k8s_pod":"%s","message":"m%d %s"}`, g, seed, podName(seed, i), i, strings.Repeat("x", r.Range(0, 40)))),
 			tokens: []string{"_all_:", fmt.Sprintf("service:svc%ds%d", g, seed), "k8s_pod:" + podName(seed, i)},
 		}
@@ -408,6 +419,7 @@ func checkMain(args []string) {
 			want[d.id] = true
 		}
 		found, extra, searchErr := map[seq.ID]bool{}, 0, ""
+		foundRange := map[seq.ID]bool{}
 		for g := 0; g < nGroups; g++ {
 			ast, err := parser.ParseSeqQL(fmt.Sprintf("service:svc%ds%d", g, seed), seq.TestMapping)
 			if err != nil {
@@ -423,6 +435,17 @@ func checkMain(args []string) {
 					found[id] = true
 				} else {
 					extra++
+				}
+			}
+			// the same query restricted to the time range of the corpus' own documents
+			qr, err := searcher.SearchDocs(ctx, fm.GetAllFracs(), processor.SearchParams{AST: ast.Root, From: docs[0].id.MID, To: docs[n-1].id.MID, Limit: 10 * n, Order: seq.DocsOrderDesc})
+			if err != nil {
+				searchErr = "search-error"
+				continue
+			}
+			for _, id := range qr.IDs.IDs() {
+				if want[id] {
+					foundRange[id] = true
 				}
 			}
 		}
@@ -447,7 +470,7 @@ func checkMain(args []string) {
 				}
 			}
 		}
-		say("OBS seed=%d n=%d found=%d extra=%d exact=%d missing=%d wrong=%d %s %s", seed, n, len(found), extra, exact, missing, wrong, searchErr, fetchErr)
+		say("OBS seed=%d n=%d found=%d extra=%d exact=%d missing=%d wrong=%d inrange=%d %s %s", seed, n, len(found), extra, exact, missing, wrong, len(foundRange), searchErr, fetchErr)
 	}
 	os.Exit(0)
 }
@@ -505,12 +528,12 @@ func runCheck(dir string, skip, keep bool, corpora string) checkResult {
 			}
 		case strings.HasPrefix(l, "OBS "):
 			var seed int64
-			var n, found, extra, exact, missing, wrong int
-			fmt.Sscanf(l, "OBS seed=%d n=%d found=%d extra=%d exact=%d missing=%d wrong=%d", &seed, &n, &found, &extra, &exact, &missing, &wrong)
+			var n, found, extra, exact, missing, wrong, inrange int
+			fmt.Sscanf(l, "OBS seed=%d n=%d found=%d extra=%d exact=%d missing=%d wrong=%d inrange=%d", &seed, &n, &found, &extra, &exact, &missing, &wrong, &inrange)
 			switch {
-			case found == n && exact == n && extra == 0 && wrong == 0:
+			case found == n && exact == n && extra == 0 && wrong == 0 && inrange == n:
 				res.served[seed] = "all"
-			case found == 0 && exact == 0 && wrong == 0:
+			case found == 0 && exact == 0 && wrong == 0 && inrange == 0:
 				res.served[seed] = "none"
 			default:
 				res.served[seed] = "part"
@@ -1179,6 +1202,9 @@ func (h *harness) retention(rng *vh.RNG) {
 func (h *harness) cache(rng *vh.RNG) {
 	work, _ := os.MkdirTemp(h.work, "cache")
 	defer os.RemoveAll(work)
+	// late documents: every fraction gets a time distribution of its own (documents 97, 194, ... minutes before creation)
+	os.Setenv("VERIF_LATE_NOW", fmt.Sprint(time.Now().UnixMilli()))
+	defer os.Unsetenv("VERIF_LATE_NOW")
 	base := filepath.Join(work, "base")
 	os.MkdirAll(base, 0o755)
 	corp, err := buildStore(base, 3, 100)
@@ -1216,6 +1242,14 @@ func (h *harness) cache(rng *vh.RNG) {
 	}
 	ref := runCheck(dirCopy(work, base), false, false, corpora)
 	refS := show(ref)
+	for seed, sv := range ref.served {
+		if sv != "all" || !ref.up {
+			h.rep.Violate(vh.Violation{Site: "fracmanager/sealed_frac_cache.go:LoadFromDisk", Class: "restart-with-cache-hides-documents",
+				What:   fmt.Sprintf("clean restart with the .frac-cache the store wrote itself: corpus %d (documents %d minutes older than the fraction) is served %q for full-range and own-time-range queries: %s", seed, seed*97, sv, ref.detail),
+				Replay: []string{"cache valid"}})
+			break
+		}
+	}
 	variants := map[string][]byte{"missing": nil, "empty": {}, "stale": staleBytes, "garbage": []byte("{\"x\":"), "valid": valid}
 	lens := []int{1, len(valid) / 3, len(valid) / 2, len(valid) - 1}
 	if h.o.Thorough() {
@@ -1254,6 +1288,30 @@ func (h *harness) cache(rng *vh.RNG) {
 		variants["entries-name-only"] = strip(func(k string) bool { return k == "name" || k == "ver" }, false)
 		variants["entries-zeroed"] = strip(func(k string) bool { return k == "name" || k == "ver" }, true)
 		variants["entries-no-index-size"] = strip(func(k string) bool { return k != "index_on_disk" }, false)
+		// damaged but parsable: null entries, empty objects, entries for fractions that do not exist
+		mk := func(f func(name string, e map[string]any) any, extra bool) []byte {
+			out := map[string]any{}
+			for name, e := range parsed {
+				out[name] = f(name, e)
+			}
+			if extra {
+				out["seq-db-00UNKNOWNFRACTION0000000000"] = map[string]any{"name": "seq-db-00UNKNOWNFRACTION0000000000", "index_on_disk": 123, "docs_total": 5}
+				out["seq-db-ZZUNKNOWNFRACTION0000000000"] = nil
+			}
+			b, _ := json.Marshal(out)
+			return b
+		}
+		variants["entries-null"] = mk(func(string, map[string]any) any { return nil }, false)
+		variants["entries-empty-object"] = mk(func(string, map[string]any) any { return map[string]any{} }, false)
+		first := true
+		variants["one-entry-null"] = mk(func(_ string, e map[string]any) any {
+			if first {
+				first = false
+				return nil
+			}
+			return e
+		}, false)
+		variants["extra-unknown-fractions"] = mk(func(_ string, e map[string]any) any { return e }, true)
 	}
 	for _, name := range vh.SortedKeys(variants) {
 		d := dirCopy(work, base)
@@ -1274,7 +1332,11 @@ func (h *harness) cache(rng *vh.RNG) {
 			}
 		}
 		h.orCache.Case("cache "+name, name != "valid", "variant="+strings.SplitN(name, "@", 2)[0], "same="+vh.B(got == refS))
-		if !res.up || got != refS {
+		if !res.up {
+			h.rep.Violate(vh.Violation{Site: "fracmanager/sealed_frac_cache.go:GetFracInfo", Class: "cache-file-prevents-start-up",
+				What:   fmt.Sprintf(".frac-cache %s (parsable or not, a cache is only an optimisation): the store does not start: %s", name, res.detail),
+				Replay: []string{"cache " + name}})
+		} else if got != refS {
 			h.rep.Violate(vh.Violation{Site: "fracmanager/sealed_frac_cache.go:LoadFromDisk", Class: "cache-file-changes-served-set",
 				What:   fmt.Sprintf(".frac-cache %s: the restart serves %s, with the valid cache %s (up=%v) %s", name, got, refS, res.up, res.detail),
 				Replay: []string{"cache " + name}})
@@ -1330,7 +1392,7 @@ func main() {
 		orLife:    vh.NewOracle("life.restart", "every history of the life channel: no Load dies and the final restart serves the fraction completely or not at all; non-trivial = the history contains a crash"),
 		orOrder:   vh.NewOracle("retention.order", "after a start without .frac-cache every fraction's FullSize equals the size of its files; shrinkSizes removes the shortest prefix of the creation order that brings the files' total under TotalSize, the rest is a suffix and a restart serves exactly it; after a restart that finds an older unsealed fraction next to a newer sealed one fm.fracs is still in creation order; non-trivial = something was removed"),
 		orSealRet: vh.NewOracle("retention.during-seal", "a retention pass pops the fraction while its seal is running (proxyFrac.Suicide waits for the seal; the sealer is held for up to 400 ms between the return of frac.Seal and the publication so that a Suicide waking too early gets to run): the process survives, and after a restart no documents, index or deletion markers of the fraction are left and nothing of it is served"),
-		orCache:   vh.NewOracle("cache.restart", "(served set, sealed fractions and their FullSize, which must also equal the size of their files) restart with .frac-cache missing / empty / garbage / stale / truncated at several lengths / parsing but with entries that lack the sizes (name only, numeric fields zeroed, no index_on_disk - what NewSealed explicitly refuses to trust) serves the same fractions and documents as with the valid cache; non-trivial = not the valid cache"),
+		orCache:   vh.NewOracle("cache.restart", "(served set, sealed fractions and their FullSize, which must also equal the size of their files) restart with .frac-cache missing / empty / garbage / stale / truncated at several lengths / parsing but with entries that lack the sizes (name only, numeric fields zeroed, no index_on_disk - what NewSealed explicitly refuses to trust; null entries, empty objects, entries for unknown fractions); the fractions hold late documents so that each Info carries its own time distribution, and every corpus is queried over the full range and over its own time range serves the same fractions and documents as with the valid cache; non-trivial = not the valid cache"),
 	}
 	rng := vh.NewRNG(o.Seed)
 	if o.Replay != "" {
